@@ -16,7 +16,7 @@ pub mod util { pub mod basic { pub type SError = String; } pub mod decimal {
 pub mod rex {
     use vstd::prelude::*;
     #[allow(non_camel_case_types)]
-    pub enum ReId { SEC_FIRST_ROW_RE, SEC_DATA_RE, TOTAL_ROW_RE }
+    pub enum ReId { SEC_FIRST_ROW_RE, SEC_DATA_RE, TOTAL_ROW_RE, CURRENT_MONTH_RE, FMV_PAGE_MARKER }
     pub uninterp spec fn re_match(id: ReId, s: Seq<char>) -> bool;
     pub uninterp spec fn re_group(id: ReId, s: Seq<char>, g: int) -> Seq<char>;
     pub uninterp spec fn spec_trim(s: Seq<char>) -> Seq<char>;
@@ -52,6 +52,16 @@ pub mod rex {
     pub fn str_is_empty(s: &str) -> (r: bool) ensures r == (s@.len() == 0) { unimplemented!() }
     #[verifier::external_body]
     pub fn to_string(s: &str) -> (r: String) ensures r@ == s@ { unimplemented!() }
+    // ---- parse_statement_text: the "Current month: <month> <day>, <year>" line
+    /// the date a matching month line denotes (None: month name / numbers not readable, or no such calendar date); a function of the page text
+    pub uninterp spec fn spec_month_line(page: Seq<char>) -> Option<Result<int, ()>>;
+    /// H: the body of `if let Some(m) = current_month_re.captures(page)`: month name, `parse::<i32>()`, `parse::<u8>()`, `Date::from_calendar_date`
+    /// -- Ok(None): the month name is not one (the line is ignored), Err: a number or the date is not valid (the statement is refused)
+    #[verifier::external_body]
+    pub fn month_line_date(m: &Caps) -> (r: Result<Option<crate::time::Date>, String>)
+        requires m.id@ is CURRENT_MONTH_RE
+        ensures match spec_month_line(m.text@) { None => r == Ok::<Option<crate::time::Date>, String>(None), Some(Ok(d)) => r is Ok && r->Ok_0 is Some && r->Ok_0->Some_0@ == d, Some(Err(_)) => r is Err }
+    { unimplemented!() }
     /// H: `desc += format!(" {}", t).as_str()`
     #[verifier::external_body]
     pub fn append_line(desc: &mut String, t: &str) ensures final(desc)@ == old(desc)@ + seq![' '] + t@ { unimplemented!() }
